@@ -5,6 +5,7 @@ import (
 	"fmt"
 	"os"
 	"runtime"
+	"strings"
 	"sync"
 	"sync/atomic"
 	"time"
@@ -116,6 +117,7 @@ type wtViol struct {
 
 type wtOutcome struct {
 	Sched         wtSched            `json:"schedule"`
+	Multi         *wtMulti           `json:"several_timed_waiters_schedule,omitempty"`
 	Viol          []wtViol           `json:"violations,omitempty"`
 	Inconclusive  string             `json:"inconclusive,omitempty"`
 	Events        []string           `json:"observed"`
@@ -688,7 +690,10 @@ func c16WaitTimeout(r *core.Run) {
 		}
 		if b, err := os.ReadFile(r.Replay); err == nil && json.Unmarshal(b, &v) == nil && v.Detail.Sched != nil {
 			seed, scheds = v.Seed, nil
-			for i := 0; i < 10; i++ {
+			if strings.HasPrefix(v.Detail.Sched.Class, "several-timed-waiters/") {
+				v.Detail.Sched = nil // replayed by c16WaitTimeoutMulti
+			}
+			for i := 0; i < 10 && v.Detail.Sched != nil; i++ {
 				scheds = append(scheds, *v.Detail.Sched)
 			}
 		}
